@@ -355,7 +355,33 @@ func (e *Sim) Run(ctx *core.Ctx, idx int) {
 		})
 	}
 	// hostile phase
+	delStep := -1
+	if e.P.MultiEDS {
+		delStep = r.Intn(e.P.Steps * 3) // in a third of the histories one ExtendedDaemonSet is deleted half-way
+	}
 	for step := 0; step < e.P.Steps; step++ {
+		if step == delStep {
+			// the user deletes an ExtendedDaemonSet that has a namesake in another namespace; the garbage collector
+			// removes what it owned; its controller is told (a reconcile request for an object that is gone)
+			for i := 1; i < len(refs); i++ {
+				twin := false
+				for j := range refs {
+					if j != i && refs[j].name == refs[i].name && refs[j].ns != refs[i].ns {
+						twin = true
+					}
+				}
+				if !twin {
+					continue
+				}
+				gone := refs[i]
+				w.DeleteEDSCascade(gone.ns, gone.name)
+				refs = append(refs[:i:i], refs[i+1:]...)
+				w.Reconcile("eds", gone.ns, gone.name)
+				w.Reconcile("podtemplate", gone.ns, gone.name)
+				ctx.Count("C12.extendeddaemonsets-deleted-next-to-a-namesake")
+				break
+			}
+		}
 		ref := refs[r.Intn(len(refs))]
 		e.action(w, r, ref.ns, ref.name, sh, edits, nextTpl)
 		if step%7 == 0 {
